@@ -105,6 +105,36 @@ def confirm_lex_failure(P, name, d, f, r):
     cfg, profile = r['cfg'], r['profile']
     info = {'def': d.id, 'cfg': cfg, 'profile': profile, 'start': r['start'], 'input_hex': data.hex(),
             'input': data.decode('utf8', 'replace'), 'what': f['what'], 'partial': r.get('partial', False)}
+    if f.get('prop') == 'C20' or 'C20' in (f.get('props') or ()):
+        # read-order failures are only observable with the guarded read-trace hook (--cfg logos_verif)
+        key = (name, cfg, profile, 'trace')
+        if key not in _native:
+            _native[key] = pipeline.build_native(name, P.usable, cfg, profile, trace=True)
+        items, panicked, raw = pipeline.native_run(_native[key], d.id, data, partial=r.get('partial', False), start=r['start'])
+        reads = pipeline.native_run.last_reads
+        info['native'] = items
+        info['native_reads'] = reads[:6]
+        bad = None
+        for k, rs in enumerate(reads):
+            offs = [o for o, _ in rs]
+            if any(b < a for a, b in zip(offs, offs[1:])):
+                bad = f'call #{k}: read offsets decrease: {offs[:24]}'
+                break
+        if bad is None:
+            # read count bound per call (3 * (span of offsets + 1) + 3), items start: no read below the previous end
+            prev_end = r['start']
+            for k, rs in enumerate(reads):
+                offs = [o for o, _ in rs]
+                if offs and min(offs) < prev_end:
+                    bad = f'call #{k}: read at {min(offs)} below the previous item end {prev_end}'
+                    break
+                if offs and len(offs) > 3 * (max(offs) - min(offs) + 2) + 3 + 3 * len([1 for _ in rs]) // max(1, len(rs)):
+                    bad = f'call #{k}: {len(offs)} reads for offsets {min(offs)}..{max(offs)}'
+                    break
+                if items and k < len(items) and items[k][0] != 'none':
+                    prev_end = items[k][2]
+        info['mismatch'] = bad
+        return (bad is not None), info
     binary = native_binary(P, name, cfg, profile)
     ubkind = f['what'].startswith(('out-of-bounds', 'reference to out-of-bounds', 'ptr::add', 'str::get_unchecked',
                                    '<[u8]>::get_unchecked'))
@@ -163,7 +193,7 @@ def confirm_lex_failure(P, name, d, f, r):
 # ----------------------------------------------------------------------------- the lexing family
 def lex_family(prop, tier, seed, *, relevant, select, name, cfgs, N, starts, budget, profiles=('dev',),
                partial=False, level='translation_validation', extra_assumptions=(), long_defs=(), long_N=17,
-               rule=None, post=None, evidence_hook=None, acceptance=None):
+               rule=None, post=None, evidence_hook=None, acceptance=None, release_only=None):
     ev = report.Evidence(prop, tier, seed, level)
     name = f'{name}-{prop}'      # own crate dir per check: checks may run concurrently
     alld = corpus_defs.all_defs(seed, tier != 'quick')
@@ -183,6 +213,8 @@ def lex_family(prop, tier, seed, *, relevant, select, name, cfgs, N, starts, bud
     payloads = []
     for d in P.usable:
         for (c, prof), mir in P.progs.items():
+            if prof == 'release' and release_only is not None and not release_only(d):
+                continue
             for s in starts:
                 payloads.append(dict(key=f'{d.id}/{c}/{prof}/{s}', d=d, mir=mir, cfg=c, tables=P.tables[d.id], N=N,
                                      start=s, budget=budget, release=(prof == 'release'), partial=partial))
@@ -221,7 +253,8 @@ def lex_family(prop, tier, seed, *, relevant, select, name, cfgs, N, starts, bud
         for k, v in r['kinds'].items():
             kinds[k] = kinds.get(k, 0) + v
         for f in r['failures']:
-            if f['prop'] in relevant:
+            props = set(f.get('props') or ()) | {f['prop']}
+            if props & relevant:
                 fails.append((by_def[r['id']], f, r))
         for s in r['samples'][:2]:
             if len(samples) < 12:
@@ -382,7 +415,8 @@ def c05(tier, seed):
     hook = {}
     rc = lex_family('C05', tier, seed, relevant={'C05'}, select=sel_for(tier, 'loop'), name='lex',
                     long_defs=LONG_QUICK if tier == 'quick' else LONG_THOROUGH,
-                    profiles=('dev',) if tier == 'quick' else ('dev', 'release'), evidence_hook=hook, **tp)
+                    profiles=('dev', 'release'), release_only=(lambda d: 'look' in d.tags) if tier == 'quick' else None,
+                    evidence_hook=hook, **tp)
     ev = hook['ev']
     # (b) the public Source::read contract, offset a free 64-bit vector
     results = runtime_checks.read_contract(tier, ev.coverage)
@@ -779,7 +813,10 @@ def partial_post(P, d, f, r, info):
                 for g, e in zip(committed, exp):
                     gs = (g[1], g[2])
                     es = (e[2], e[3]) if e[0] == 'item' else (e[1], e[2])
-                    if gs != es or (g[0] == 'ok') != (e[0] == 'item'):
+                    samevar = True
+                    if g[0] == 'ok' and e[0] == 'item' and e[1][0] == 'variant':
+                        samevar = g[3].startswith(d.variants[e[1][1]].name)
+                    if gs != es or (g[0] == 'ok') != (e[0] == 'item') or not samevar:
                         info['confirmation'] = f'continuation {bytes(ext)!r} changes the committed item {g} into {e}'
                         return True
         return False
